@@ -183,6 +183,17 @@ theorem holds_of_inv (P : Params) (pre : Store) (c : Cfg) (h : Inv P pre c) :
   simp [viewOk_liveKeys]
 
 
+/-- Every step either leaves the store alone or reports an event that is not an exhaustion. -/
+theorem step_store_or_event (P : Params) (c : Cfg) (tid : Nat) :
+    (stepThread P c tid).store = c.store ∨
+    ∃ e, (stepThread P c tid).trace = c.trace ++ [e] ∧ ∀ t k, e ≠ .exh t k := by
+  unfold stepThread
+  repeat' split
+  all_goals first
+    | (left; rfl)
+    | (right; exact ⟨_, rfl, fun _ _ => by simp⟩)
+    | (left; simp [failCfg])
+
 /-! ### reading `holds` -/
 
 /-- In a history accepted by the predicate an `ok` for a live key is impossible. -/
